@@ -1,6 +1,8 @@
 // Memory-bounded priority queue with backpressure
 // Matches C++ AGC's CBoundedPQueue behavior
 
+#[cfg(ragc_verif_sched)]
+use crate::verif_std as std;
 use std::collections::BinaryHeap;
 use std::sync::{Arc, Condvar, Mutex};
 
@@ -95,15 +97,23 @@ impl<T: Ord> MemoryBoundedQueue<T> {
     /// queue.push(contig_data.clone(), contig_data.len()).unwrap(); // Blocks if queue is full!
     /// ```
     pub fn push(&self, item: T, size_bytes: usize) -> Result<(), PushError> {
+        #[cfg(ragc_verif_sched)]
+        std::point("q.push", size_bytes as i64, 0);
         let mut inner = self.inner.lock().unwrap();
 
         // Wait while queue would be too full
         while inner.current_size + size_bytes > self.capacity_bytes && !inner.closed {
+            #[cfg(ragc_verif_sched)]
+            std::qevent("q.wait_not_full", size_bytes as i64, inner.current_size as i64);
             inner = self.not_full.wait(inner).unwrap();
+            #[cfg(ragc_verif_sched)]
+            std::qevent("q.woke_not_full", size_bytes as i64, inner.current_size as i64);
         }
 
         // Check if closed while we were waiting
         if inner.closed {
+            #[cfg(ragc_verif_sched)]
+            std::qevent("q.refuse", size_bytes as i64, inner.current_size as i64);
             return Err(PushError::Closed);
         }
 
@@ -113,6 +123,8 @@ impl<T: Ord> MemoryBoundedQueue<T> {
             size: size_bytes,
         });
         inner.current_size += size_bytes;
+        #[cfg(ragc_verif_sched)]
+        std::qevent("q.admit", size_bytes as i64, inner.current_size as i64);
 
         // Signal that queue is not empty
         self.not_empty.notify_one();
@@ -164,21 +176,31 @@ impl<T: Ord> MemoryBoundedQueue<T> {
     /// // Queue is closed and empty - we're done!
     /// ```
     pub fn pull(&self) -> Option<T> {
+        #[cfg(ragc_verif_sched)]
+        std::point("q.pull", 0, 0);
         let mut inner = self.inner.lock().unwrap();
 
         // Wait while queue is empty and not closed
         while inner.items.is_empty() && !inner.closed {
+            #[cfg(ragc_verif_sched)]
+            std::qevent("q.wait_not_empty", 0, 0);
             inner = self.not_empty.wait(inner).unwrap();
+            #[cfg(ragc_verif_sched)]
+            std::qevent("q.woke_not_empty", inner.items.len() as i64, inner.current_size as i64);
         }
 
         // If closed and empty, return None
         if inner.items.is_empty() {
+            #[cfg(ragc_verif_sched)]
+            std::qevent("q.end", 0, 0);
             return None;
         }
 
         // Remove highest-priority item (BinaryHeap::pop returns max element)
         let priority_item = inner.items.pop().unwrap();
         inner.current_size -= priority_item.size;
+        #[cfg(ragc_verif_sched)]
+        std::qevent("q.take", priority_item.size as i64, inner.current_size as i64);
 
         // Signal that queue has space
         self.not_full.notify_one();
@@ -213,8 +235,12 @@ impl<T: Ord> MemoryBoundedQueue<T> {
     /// - Pulls will drain remaining items, then return None
     /// - Workers can detect completion via `pull()` returning None
     pub fn close(&self) {
+        #[cfg(ragc_verif_sched)]
+        std::point("q.close", 0, 0);
         let mut inner = self.inner.lock().unwrap();
         inner.closed = true;
+        #[cfg(ragc_verif_sched)]
+        std::qevent("q.closed", inner.items.len() as i64, inner.current_size as i64);
 
         // Wake up all waiting threads
         self.not_full.notify_all();
